@@ -42,6 +42,22 @@ theorem writeAt_take (f : List Byte) (k p : Nat) (d : List Byte) (hk : k ≤ f.l
 theorem resize_length (f : List Byte) (n : Nat) : (resize f n).length = n := by
   simp [resize, zeros]; omega
 
+/-- cutting (or extending) at k + n commutes with looking at the file from offset k on -/
+theorem resize_drop (f : List Byte) (k n : Nat) (hk : k ≤ f.length) : (resize f (k + n)).drop k = resize (f.drop k) n := by
+  unfold resize
+  have h1 : k ≤ (f.take (k + n)).length := by simp; omega
+  rw [List.drop_append_of_le_length h1]
+  have h2 : (f.take (k + n)).drop k = (f.drop k).take n := by
+    rw [List.drop_take]; congr 1; omega
+  have h3 : k + n - f.length = n - (f.drop k).length := by simp; omega
+  rw [h2, h3]
+
+theorem resize_take (f : List Byte) (k n : Nat) (hk : k ≤ f.length) : (resize f (k + n)).take k = f.take k := by
+  unfold resize
+  have h1 : k ≤ (f.take (k + n)).length := by simp; omega
+  rw [List.take_append_of_le_length h1, List.take_take]
+  congr 1; omega
+
 
 /-! ## the simulation relation -/
 
@@ -58,8 +74,11 @@ def Rel (sh : Shim) (w : World) (a : Abs) : Prop :=
     Excluded, each with a proved witness in SfProps/C14.lean:
       * a whence other than SEEK_SET/CUR/END (descriptor: 0, callbacks: whatever the user returns) — never issued;
       * a seek to a negative logical position when fileoffset > 0 (the descriptor moves in front of the window) — never issued;
-      * psf_get_filelen on an embedded READ handle unless `filelength` already equals the logical length;
-      * psf_ftruncate on the callback route (no such callback: ftruncate (-1)) and with fileoffset > 0 (offset ignored). -/
+      * psf_get_filelen on an embedded READ handle once the container parser has set `filelength` to something other
+        than the logical length (by design: the header's own size field then defines the embedded file);
+      * psf_ftruncate on the callback route: SF_VIRTUAL_IO has no truncate callback, the call is refused and nothing
+        is touched (theorem truncate_vio_refused_cleanly).
+    Since the repairs 0001..0003 truncate with fileoffset > 0 and the first psf_get_filelen of an embedded READ handle are covered. -/
 def Op.ok (sh : Shim) (a : Abs) : Op → Bool
   | .seek off wh =>
     decide (wh ≤ 2) && (decide (sh.fileoffset = 0) ||
@@ -68,8 +87,8 @@ def Op.ok (sh : Shim) (a : Abs) : Op → Bool
   | .write _ _ _ => true
   | .tell => true
   | .filelen => sh.virtualIo || decide (sh.mode = .w) || decide (sh.fileoffset = 0) ||
-      (decide (sh.mode = .r) && decide (0 < sh.filelength) && decide (sh.filelength = (a.content.length : Int)))
-  | .truncate _ => !sh.virtualIo && decide (sh.fileoffset = 0)
+      (decide (sh.mode = .r) && (decide (sh.filelength ≤ 0) || decide (sh.filelength = (a.content.length : Int))))
+  | .truncate _ => !sh.virtualIo
 
 /-- the fields no primitive changes -/
 def Frame (s s' : Shim) : Prop :=
@@ -303,41 +322,41 @@ theorem step_sim_fd_filelen {sh : Shim} {w : World} {a : Abs} (hv : sh.virtualIo
   | r =>
     simp only [hm] at hok
     refine ⟨?_, hR, Frame.refl _⟩
-    by_cases hpos : sh.fileoffset > 0 ∧ sh.filelength > 0
-    · simp only [hpos, and_self, if_true]
-      rcases hok with (h | h) | h
-      · exact absurd h (by simp)
-      · omega
-      · simp [h.2]
+    by_cases hpos : sh.fileoffset > 0
+    · simp only [hpos, if_true]
+      by_cases hfl : sh.filelength > 0
+      · simp only [hfl, if_true]
+        rcases hok with (h | h) | h
+        · exact absurd h (by simp)
+        · omega
+        · rcases h.2 with h2 | h2
+          · omega
+          · simp [h2]
+      · simp only [hfl, if_false]
+        simp [hk, hlen]
     · simp only [hpos, if_false]
-      rcases hok with (h | h) | h
-      · exact absurd h (by simp)
-      · have : k = 0 := by omega
-        simp [hlen, this]
-      · have : k = 0 := by have := h.1.2; omega
-        simp [hlen, this]
+      have : k = 0 := by omega
+      simp [hlen, this]
 
-theorem step_sim_fd_truncate {sh : Shim} {w : World} {a : Abs} (n : Int) (hv : sh.virtualIo = false) (h : Rel sh w a)
-    (hok : Op.ok sh a (.truncate n) = true) :
+theorem step_sim_fd_truncate {sh : Shim} {w : World} {a : Abs} (n : Int) (hv : sh.virtualIo = false) (h : Rel sh w a) :
     ((step sh w (.truncate n)).ret, (step sh w (.truncate n)).data) = (absStep a (.truncate n)).1 ∧
     Rel (step sh w (.truncate n)).sh (step sh w (.truncate n)).w (absStep a (.truncate n)).2 ∧
     Frame sh (step sh w (.truncate n)).sh := by
   have hR := h
   rw [Rel_fd hv] at h
   obtain ⟨hsp, hwp, hval, k, hk, hkl, hc, hoff, hrw⟩ := h
-  simp only [Op.ok, hv, Bool.not_false, Bool.true_and, decide_eq_true_eq] at hok
-  have hk0 : k = 0 := by omega
-  subst hk0
   simp only [step, ftruncate, absStep]
   by_cases hneg : n < 0
   · simp only [hneg, if_true]; exact ⟨by first | rfl | trivial | simp, hR, Frame.refl _⟩
-  · simp only [hneg, if_false, osTruncate, hval, Bool.not_true, hwp, Bool.or_self, Bool.false_eq_true]
+  · simp only [hneg, if_false, hv, Bool.false_eq_true, osTruncate, hval, Bool.not_true, hwp, Bool.or_self]
     have h1 : ¬ ((0 : Int) = -1) := by omega
     simp only [h1, if_false]
+    have hn : (n + sh.fileoffset).toNat = k + n.toNat := by rw [hk]; omega
     refine ⟨by first | rfl | trivial | simp, ?_, Frame.refl _⟩
     rw [Rel_fd hv]
-    refine ⟨hsp, by simpa using hwp, by simpa [World.valid] using hval, 0, hk, by omega, ?_, hoff, hrw⟩
-    simp at hc; simp [hc]
+    refine ⟨hsp, by simpa using hwp, by simpa [World.valid] using hval, k, hk, ?_, ?_, hoff, hrw⟩
+    · simp only [hn, resize_length]; omega
+    · simp only [hn, resize_drop _ _ _ hkl, hc]
 
 theorem step_sim {sh : Shim} {w : World} {a : Abs} (op : Op) (h : Rel sh w a) (hok : Op.ok sh a op = true) :
     ((step sh w op).ret, (step sh w op).data) = (absStep a op).1 ∧
@@ -351,6 +370,6 @@ theorem step_sim {sh : Shim} {w : World} {a : Abs} (op : Op) (h : Rel sh w a) (h
     | write b i d => exact step_sim_fd_write b i d hv h
     | tell => exact step_sim_fd_tell hv h
     | filelen => exact step_sim_fd_filelen hv h hok
-    | truncate n => exact step_sim_fd_truncate n hv h hok
+    | truncate n => exact step_sim_fd_truncate n hv h
 
 end Sf.Routes
